@@ -1,6 +1,7 @@
 SPECIFICATION Spec
 CONSTANTS
   ClosesPipeOnBuildError = TRUE
+  ClosesFilesOnParamsError = TRUE
   ClosesFilesOnFieldError = TRUE
   FileLen = 2
   RespLen = 2
